@@ -19,16 +19,33 @@ def _history(seed, confkw):
             """an ordinary pending change: a new or rewritten file that is not empty (an empty file written over a recorded
             non-empty one would be a second trigger - the zero-size interlock - of its own)"""
             dd = rng.randrange(confkw["nd"])
-            nm = rng.choice(g.names)
+            free = [x for x in g.names if not os.path.lexists(a.path(dd, x))]
+            if not free:
+                return None
+            nm = rng.choice(free)
             vals = g.content()
             while not vals:
                 vals = g.content()
             a.write_file(dd, nm, vals, mtime=g.stamp())
             return "write %d/%s %r" % (dd, nm, vals)
 
+        def touch_one_of_many():
+            """a changed time stamp on a disk that keeps at least one other recorded file as it is (touching the only file of a
+            disk is the "all files rewritten" trigger)"""
+            cfst = rec.lines[-1]["state"]["cf"]
+            fsst = rec.lines[-1]["state"]["fs"]
+            for dd in rng.sample(range(confkw["nd"]), confkw["nd"]):
+                same = [n for n, e in cfst.get(str(dd), {}).items() if n in fsst.get(str(dd), {}) and fsst[str(dd)][n].get("mt") == e["mt"]
+                        and fsst[str(dd)][n].get("sz") == e["sz"]]
+                if len(same) >= 2:
+                    n = rng.choice(same)
+                    a.set_mtime(dd, n, g.stamp())
+                    return "touch %d/%s" % (dd, n)
+            return None
+
         def pending(onto=None):
             if rng.random() < 0.5:
-                d = rng.choice([add_nonempty, g.op_touch])()
+                d = rng.choice([add_nonempty, touch_one_of_many])()
                 if d:
                     rec.env(d); steps.append(d)
             if onto is not None and confkw["nd"] > 1 and rng.random() < 0.6:
@@ -89,17 +106,21 @@ def _history(seed, confkw):
                 p = a.pfile(l)
                 if not os.path.exists(p) or os.path.getsize(p) == 0:
                     continue
+                pending()
                 if trig == "parity-lost":
                     os.remove(p)
                 else:
-                    # one block less than the recorded state uses (the file may be longer than that after deletions)
-                    cfst = rec.lines[-1]["state"]["cf"]
-                    used = 1 + max([b["pos"] for dd in cfst.values() for e in dd.values() for b in e["bl"]] + [-1])
+                    # one block less than what the state will use after the scan: the highest synced block of a file that is
+                    # still as recorded (parity.c parity_used_size; the file may be longer than that)
+                    cfst, fsst = rec.lines[-1]["state"]["cf"], rec.lines[-1]["state"]["fs"]
+                    used = 1 + max([b["pos"] for dd, fl in cfst.items() for n, e in fl.items()
+                                    if n in fsst.get(dd, {}) and fsst[dd][n].get("mt") == e["mt"] and fsst[dd][n].get("sz") == e["sz"]
+                                    for b in e["bl"] if b["st"] == "BLK"] + [-1])
                     if used < 1 or used * arr.BS > os.path.getsize(p):
                         continue
                     os.truncate(p, (used - 1) * arr.BS)
                 rec.env("%s level %d" % (trig, l), damage=True); steps.append("%s level %d" % (trig, l))
-                pending(); expect_refused(own="-F"); proceed("-F")
+                expect_refused(own="-F"); proceed("-F")
                 r, o = rec.check(); steps.append("check -> %s" % o["exit"])
             elif trig in ("blocksize", "hashsize", "disk-dropped"):
                 if trig == "disk-dropped" and not rec.lines[-1]["state"]["cf"][str(d)]:
